@@ -3,6 +3,7 @@ package main
 import (
 	"fmt"
 	"go/ast"
+	"go/constant"
 	"go/token"
 	"go/types"
 	"sort"
@@ -465,4 +466,172 @@ func runC29(c *Ctx) {
 	}
 	sort.Strings(miss)
 	c.Check(len(miss) == 0, r2, "IsPrimitive agrees with Compare's case set", fp.Decl.Pos(), fmt.Sprintf("%d primitive types", len(prim)), strings.Join(miss, "; "), nil)
+
+	r3 := c.Rule("R3", "nil operands are ordered consistently: following the nil tests of the fallback comparison with both operands nil reaches only `return 0` among constant returns (reflexivity), and with exactly one operand nil the two sides return opposite signs (antisymmetry); paths are followed with the outcome of every `x == nil` / `y != nil` test fixed by the assumed input", 4)
+	nilOrderRule(c, r3, w.Fn("btree.Compare"))
+	for _, l := range w.allLits(fco) {
+		nilOrderRule(c, r3, l)
+	}
+	nilOrderRule(c, r3, fco)
+}
+
+// nilOrderRule (C29.R3, shared by C30): abstract execution of a two-operand comparison function for the
+// inputs (nil,nil), (nil,v), (v,nil), starting at its first nil test.
+func nilOrderRule(c *Ctx, r3 string, f *Func) {
+	w := c.W
+	info := f.Pkg.TypesInfo
+	var px, py *types.Var
+	var ft *ast.FuncType
+	if f.Lit != nil {
+		ft = f.Lit.Type
+	} else if f.Decl != nil {
+		ft = f.Decl.Type
+	}
+	if ft == nil || ft.Params == nil {
+		return
+	}
+	var ps []*types.Var
+	for _, fld := range ft.Params.List {
+		for _, nm := range fld.Names {
+			if v, ok := info.Defs[nm].(*types.Var); ok {
+				ps = append(ps, v)
+			}
+		}
+	}
+	if len(ps) != 2 {
+		return
+	}
+	px, py = ps[0], ps[1]
+	if _, isIface := px.Type().Underlying().(*types.Interface); !isIface {
+		return
+	}
+	g := w.G(f)
+	// nil tests: (node, which operand, true when the test is `== nil`)
+	type nilTest struct {
+		op int
+		eq bool
+	}
+	tests := map[int]nilTest{}
+	for _, n := range g.Nodes {
+		if !n.IsCond || n.Ast == nil {
+			continue
+		}
+		be, ok := n.Ast.(*ast.BinaryExpr)
+		if !ok || (be.Op != token.EQL && be.Op != token.NEQ) {
+			continue
+		}
+		var other ast.Expr
+		if isNilLit(info, be.Y) {
+			other = be.X
+		} else if isNilLit(info, be.X) {
+			other = be.Y
+		} else {
+			continue
+		}
+		id, ok := ast.Unparen(other).(*ast.Ident)
+		if !ok {
+			continue
+		}
+		switch info.Uses[id] {
+		case types.Object(px):
+			tests[n.ID] = nilTest{0, be.Op == token.EQL}
+		case types.Object(py):
+			tests[n.ID] = nilTest{1, be.Op == token.EQL}
+		}
+	}
+	if len(tests) == 0 {
+		return
+	}
+	// entry-most nil tests
+	var starts []int
+	for id := range tests {
+		first := true
+		for other := range tests {
+			if other != id && g.Reach([]int{other}, nil, nil).Seen[id] && !g.Reach([]int{id}, nil, nil).Seen[other] {
+				first = false
+			}
+		}
+		if first {
+			starts = append(starts, id)
+		}
+	}
+	sort.Ints(starts)
+	constRets := func(xNil, yNil bool) (map[int64]bool, token.Pos) {
+		out := map[int64]bool{}
+		var pos token.Pos
+		seen := map[int]bool{}
+		queue := append([]int{}, starts...)
+		for len(queue) > 0 {
+			id := queue[0]
+			queue = queue[1:]
+			if seen[id] {
+				continue
+			}
+			seen[id] = true
+			n := g.Nodes[id]
+			if n.Ret != nil && len(n.Ret.Results) == 1 {
+				if tv := info.Types[n.Ret.Results[0]]; tv.Value != nil {
+					if v, ok := constant.Int64Val(constant.ToInt(tv.Value)); ok {
+						out[v] = true
+						if v != 0 || pos == token.NoPos {
+							pos = n.Ret.Pos()
+						}
+					}
+				}
+				continue
+			}
+			t, isTest := tests[id]
+			for _, e := range n.Succs {
+				if isTest && e.Cond != 0 {
+					isNil := xNil
+					if t.op == 1 {
+						isNil = yNil
+					}
+					outcome := isNil == t.eq
+					if (e.Cond == 1) != outcome {
+						continue
+					}
+				}
+				queue = append(queue, e.To)
+			}
+		}
+		return out, pos
+	}
+	name := shortKey(f.Key)
+	both, pos := constRets(true, true)
+	okRefl := true
+	for v := range both {
+		if v != 0 {
+			okRefl = false
+		}
+	}
+	if pos == token.NoPos {
+		pos = g.Nodes[starts[0]].Ast.Pos()
+	}
+	c.Check(okRefl, r3, name+": two nil operands compare equal", pos, "only `return 0` is reachable for (nil, nil)",
+		fmt.Sprintf("with both operands nil the comparison can return %v: compare(k, k) != 0 for a missing value, so a key is not equal to itself and two keys that both lack the field are each `less` than the other - lookups of stored keys fail and the order depends on which comparison happened first", keysOf(both)), nil)
+	xn, p1 := constRets(true, false)
+	yn, _ := constRets(false, true)
+	okAnti := true
+	for a := range xn {
+		for b := range yn {
+			if a != 0 && b != 0 && (a > 0) == (b > 0) {
+				okAnti = false
+			}
+		}
+	}
+	if p1 == token.NoPos {
+		p1 = pos
+	}
+	c.Check(okAnti, r3, name+": a nil operand sorts on one side whichever argument it is", p1, fmt.Sprintf("(nil,v) -> %v, (v,nil) -> %v", keysOf(xn), keysOf(yn)),
+		fmt.Sprintf("(nil, v) can return %v and (v, nil) can return %v: the same sign both ways round", keysOf(xn), keysOf(yn)), nil)
+}
+
+func keysOf(m map[int64]bool) []int64 {
+	var out []int64
+	for k := range m {
+		out = append(out, k)
+	}
+	sort.Slice(out, func(i, j int) bool { return out[i] < out[j] })
+	return out
 }
